@@ -1,6 +1,7 @@
 import Pywbem.Model.MofStr
 import Pywbem.Model.MofLex
 import Pywbem.Model.MofVal
+import Pywbem.Model.MofDecl
 open Lean Pywbem.Proto Pywbem.Model
 
 /-! C08 driver.  Strings travel as arrays of code points.  Input line = {"op":..., ...}:
@@ -15,6 +16,14 @@ open Lean Pywbem.Proto Pywbem.Model
   {"op":"valmof","ty":T,"v":VAL|[VAL..],"indent","maxline","pos","es","avoid"} -> {"ok":{"mof","pos"}} | {"exc"}
         VAL = null | {"s":S} | {"c":S} | {"b":bool} | {"i":"dec"} | {"r":S str(float)} | {"d":S str(datetime)} | {"ref":S uri}
   {"op":"valread","ty":T,"arr":bool,"text":S}                         -> {"v":VAL|[VAL..]} | {"none":true}
+  {"op":"qdmof","qd":QD,"maxline"} -> {"ok":S}|{"exc"}     {"op":"qdread","text":S} -> {"qd":QD}|{"none":true}
+        QD = {"name":S,"ty":T,"arr":b,"size":n|null,"value"?:VAL|[VAL],"scopes":[8 b],"fl":{"o","s","t","i": b|null}}
+  {"op":"qlmof","quals":[Q..],"indent","maxline"} -> {"ok":S}|{"exc"}   {"op":"qlread","decls":[QD..],"text":S} -> {"quals":[Q..]}|{"none":true}
+        Q = {"name":S,"ty":T,"value":VAL|[VAL],"fl":{..}}
+  {"op":"clsmof","cls":CLS,"maxline"} -> {"ok":S}|{"exc"}   {"op":"clsread","decls":[QD..],"text":S} -> {"cls":CLS}|{"none":true}
+  {"op":"instmof","inst":INST,"maxline"} -> {"ok":S}|{"exc"}  {"op":"instread","cls":CLS,"text":S} -> {"inst":INST}|{"none":true}
+        CLS = {"name","super":S|null,"quals":[Q],"props":[P],"methods":[M]}   INST = {"cn":S,"props":[P]}
+        P = {"name","ty","rc":S|null,"arr","size","value"?,"quals":[Q]}  M = {"name","rt","params":[PARAM],"quals":[Q]}
   {"op":"lexnum","text":S}   -> {"tok":"float","text":S,"rest":n} | {"tok":"int","v":"dec","rest":n} | {"tok":"error",..} | {"tok":null}
   {"op":"intstr","v":"dec"}  -> {"out":S}
   {"op":"strlist","text":S}                                         -> {"lex":null} | {"ok":S} | {"exc":..}
@@ -91,6 +100,97 @@ def valueJ (v : MofVal.Value drvCodec) : Json :=
 def typeOf (j : Json) (k : String) : MofVal.CimType :=
   ((getStr j k).bind MofVal.CimType.ofName).getD .string
 
+def optBoolJ : Option Bool → Json
+  | some b => b
+  | none => Json.null
+
+def getOptBool (j : Json) (k : String) : Option Bool :=
+  match getField j k with | .bool b => some b | _ => none
+
+def flavorsOfJ (j : Json) : MofDecl.Flavors :=
+  ⟨getOptBool j "o", getOptBool j "s", getOptBool j "t", getOptBool j "i"⟩
+
+def flavorsJ (f : MofDecl.Flavors) : Json :=
+  Json.mkObj [("o", optBoolJ f.overridable), ("s", optBoolJ f.tosubclass), ("t", optBoolJ f.translatable),
+              ("i", optBoolJ f.toinstance)]
+
+def qualDeclOfJ (j : Json) : MofDecl.QualDecl drvCodec :=
+  { name := getNats j "name", ty := typeOf j "ty", isArray := (getBool j "arr").getD false,
+    arraySize := getNat j "size",
+    value := (match j.getObjVal? "value" with | .ok v => some (parseValueJ v) | .error _ => none),
+    scopes := (getArr j "scopes").map (fun x => match x with | .bool b => b | _ => false),
+    flavors := flavorsOfJ (getField j "fl") }
+
+def qualDeclJ (q : MofDecl.QualDecl drvCodec) : Json :=
+  Json.mkObj ([("name", natsToJson q.name), ("ty", (MofVal.CimType.name q.ty : String)), ("arr", q.isArray),
+    ("size", optToJson (fun (n : Nat) => (n : Json)) q.arraySize),
+    ("scopes", Json.arr (q.scopes.map (fun (b : Bool) => (b : Json))).toArray), ("fl", flavorsJ q.flavors)] ++
+    (match q.value with | some v => [("value", valueJ v)] | none => []))
+
+def qualifierOfJ (j : Json) : MofDecl.Qualifier drvCodec :=
+  { name := getNats j "name", ty := typeOf j "ty", value := parseValueJ (getField j "value"),
+    flavors := flavorsOfJ (getField j "fl") }
+
+def qualifierJ (q : MofDecl.Qualifier drvCodec) : Json :=
+  Json.mkObj [("name", natsToJson q.name), ("ty", (MofVal.CimType.name q.ty : String)), ("value", valueJ q.value),
+    ("fl", flavorsJ q.flavors)]
+
+def textRes (r : Except PyExc (List Nat)) : Json :=
+  match r with
+  | .ok s => Json.mkObj [("ok", natsToJson s)]
+  | .error e => e.toJson
+
+def optStr (j : Json) (k : String) : Option (List Nat) :=
+  match getField j k with | .arr a => some (a.toList.filterMap jsonToNat?) | _ => none
+
+def optStrJ : Option (List Nat) → Json
+  | some s => natsToJson s
+  | none => Json.null
+
+def propertyOfJ (j : Json) : MofDecl.Property drvCodec :=
+  { name := getNats j "name", ty := typeOf j "ty", refClass := optStr j "rc", isArray := (getBool j "arr").getD false,
+    arraySize := getNat j "size",
+    value := (match j.getObjVal? "value" with | .ok v => some (parseValueJ v) | .error _ => none),
+    quals := (getArr j "quals").map qualifierOfJ }
+
+def propertyJ (p : MofDecl.Property drvCodec) : Json :=
+  Json.mkObj ([("name", natsToJson p.name), ("ty", (MofVal.CimType.name p.ty : String)), ("rc", optStrJ p.refClass),
+    ("arr", p.isArray), ("size", optToJson (fun (n : Nat) => (n : Json)) p.arraySize),
+    ("quals", Json.arr (p.quals.map qualifierJ).toArray)] ++
+    (match p.value with | some v => [("value", valueJ v)] | none => []))
+
+def parameterOfJ (j : Json) : MofDecl.Parameter drvCodec :=
+  { name := getNats j "name", ty := typeOf j "ty", refClass := optStr j "rc", isArray := (getBool j "arr").getD false,
+    arraySize := getNat j "size", quals := (getArr j "quals").map qualifierOfJ }
+
+def parameterJ (p : MofDecl.Parameter drvCodec) : Json :=
+  Json.mkObj [("name", natsToJson p.name), ("ty", (MofVal.CimType.name p.ty : String)), ("rc", optStrJ p.refClass),
+    ("arr", p.isArray), ("size", optToJson (fun (n : Nat) => (n : Json)) p.arraySize),
+    ("quals", Json.arr (p.quals.map qualifierJ).toArray)]
+
+def methodOfJ (j : Json) : MofDecl.Method drvCodec :=
+  { name := getNats j "name", returnType := typeOf j "rt", params := (getArr j "params").map parameterOfJ,
+    quals := (getArr j "quals").map qualifierOfJ }
+
+def methodJ (m : MofDecl.Method drvCodec) : Json :=
+  Json.mkObj [("name", natsToJson m.name), ("rt", (MofVal.CimType.name m.returnType : String)),
+    ("params", Json.arr (m.params.map parameterJ).toArray), ("quals", Json.arr (m.quals.map qualifierJ).toArray)]
+
+def classOfJ (j : Json) : MofDecl.Class drvCodec :=
+  { name := getNats j "name", superclass := optStr j "super", quals := (getArr j "quals").map qualifierOfJ,
+    props := (getArr j "props").map propertyOfJ, methods := (getArr j "methods").map methodOfJ }
+
+def classJ (k : MofDecl.Class drvCodec) : Json :=
+  Json.mkObj [("name", natsToJson k.name), ("super", optStrJ k.superclass),
+    ("quals", Json.arr (k.quals.map qualifierJ).toArray), ("props", Json.arr (k.props.map propertyJ).toArray),
+    ("methods", Json.arr (k.methods.map methodJ).toArray)]
+
+def instanceOfJ (j : Json) : MofDecl.Instance drvCodec :=
+  { className := getNats j "cn", props := (getArr j "props").map propertyOfJ }
+
+def instanceJ (i : MofDecl.Instance drvCodec) : Json :=
+  Json.mkObj [("cn", natsToJson i.className), ("props", Json.arr (i.props.map propertyJ).toArray)]
+
 def handle (j : Json) : Json :=
   let indent := (getNat j "indent").getD 0
   let maxline := (getNat j "maxline").getD 80
@@ -123,6 +223,26 @@ def handle (j : Json) : Json :=
     match MofVal.parseValue drvCodec (typeOf j "ty") ((getBool j "arr").getD false) (getNats j "text") with
     | none => Json.mkObj [("none", true)]
     | some v => Json.mkObj [("v", valueJ v)]
+  | some "qdmof" => textRes (MofDecl.qualDeclTomof drvCodec (qualDeclOfJ (getField j "qd")) maxline)
+  | some "qdread" =>
+    match MofDecl.readQualDecl drvCodec (getNats j "text") with
+    | none => Json.mkObj [("none", true)]
+    | some qd => Json.mkObj [("qd", qualDeclJ qd)]
+  | some "qlmof" => textRes (MofDecl.qualifiersTomof drvCodec ((getArr j "quals").map qualifierOfJ) indent maxline)
+  | some "qlread" =>
+    match MofDecl.readQualList drvCodec ((getArr j "decls").map qualDeclOfJ) (getNats j "text") with
+    | none => Json.mkObj [("none", true)]
+    | some qs => Json.mkObj [("quals", Json.arr (qs.map qualifierJ).toArray)]
+  | some "clsmof" => textRes (MofDecl.classTomof drvCodec (classOfJ (getField j "cls")) maxline)
+  | some "clsread" =>
+    match MofDecl.readClass drvCodec ((getArr j "decls").map qualDeclOfJ) (getNats j "text") with
+    | none => Json.mkObj [("none", true)]
+    | some k => Json.mkObj [("cls", classJ k)]
+  | some "instmof" => textRes (MofDecl.instanceTomof drvCodec (instanceOfJ (getField j "inst")) maxline)
+  | some "instread" =>
+    match MofDecl.readInstance drvCodec (classOfJ (getField j "cls")) (getNats j "text") with
+    | none => Json.mkObj [("none", true)]
+    | some i => Json.mkObj [("inst", instanceJ i)]
   | some "lexnum" =>
     match MofLex.lexNumber (getNats j "text") with
     | none => Json.mkObj [("tok", Json.null)]
